@@ -86,7 +86,8 @@ class C11(core.Check):
             'and inside the variable area. non-trivial = a second array or >= 3 variables were checked')
     PARTIAL = ('the characters of string variables (PEEK at the descriptor address, before and after a collection) '
                'are checked by the oracle on the implementation only - the theorems treat descriptors as opaque bytes '
-               '(string space is proved in C10); no theorem bounds addresses by 64K (the memory limit is an input)')
+               '(string space is proved in C10); the deep copy of LET between string variables (seed C11f) is tested by the '
+               'oracle, not a theorem of this model')
     histogram = None
 
     def __init__(self, tier, seed):
